@@ -193,14 +193,14 @@ func (x *Exec) bindParams(fn *ssa.Function, args []Val) map[string]cvar {
 	k := 0
 	if sig.Recv() != nil {
 		if k < len(args) {
-			vars[sig.Recv().Name()] = cvar{args[k], sig.Recv().Type()}
+			vars[sig.Recv().Name()] = cvar{v: args[k], t: sig.Recv().Type()}
 		}
 		k++
 	}
 	for i := 0; i < sig.Params().Len(); i++ {
 		p := sig.Params().At(i)
 		if k < len(args) {
-			vars[p.Name()] = cvar{args[k], p.Type()}
+			vars[p.Name()] = cvar{v: args[k], t: p.Type()}
 		}
 		k++
 	}
@@ -212,20 +212,20 @@ func (x *Exec) bindResult(vars map[string]cvar, fn *ssa.Function, rv Val) {
 	switch res.Len() {
 	case 0:
 	case 1:
-		vars["result"] = cvar{rv, res.At(0).Type()}
+		vars["result"] = cvar{v: rv, t: res.At(0).Type()}
 		if n := res.At(0).Name(); n != "" && n != "_" {
-			vars[n] = cvar{rv, res.At(0).Type()}
+			vars[n] = cvar{v: rv, t: res.At(0).Type()}
 		}
 	default:
 		tv, ok := rv.(*TupleVal)
 		if !ok {
 			return
 		}
-		vars["result"] = cvar{rv, res}
+		vars["result"] = cvar{v: rv, t: res}
 		for i := 0; i < res.Len(); i++ {
-			vars[fmt.Sprintf("result%d", i)] = cvar{tv.Elems[i], res.At(i).Type()}
+			vars[fmt.Sprintf("result%d", i)] = cvar{v: tv.Elems[i], t: res.At(i).Type()}
 			if n := res.At(i).Name(); n != "" && n != "_" {
-				vars[n] = cvar{tv.Elems[i], res.At(i).Type()}
+				vars[n] = cvar{v: tv.Elems[i], t: res.At(i).Type()}
 			}
 		}
 	}
@@ -304,6 +304,16 @@ func (x *Exec) evalModifies(ce *cenv, ms []*CExpr) []modEntry {
 			out = append(out, modEntry{all: true})
 			continue
 		}
+		if m.Kind == "id" && m.Name == "allbytes" {
+			bt := types.Universe.Lookup("byte").Type()
+			hn, so := te.elemHeap(bt)
+			if _, ok := heapSorts[hn]; !ok {
+				heapSorts[hn] = so
+				heapNames = append(heapNames, hn)
+			}
+			out = append(out, modEntry{heap: hn, typ: bt})
+			continue
+		}
 		if m.Kind == "slice" {
 			// backing array of a slice
 			v := ce.eval(m.X)
@@ -338,8 +348,10 @@ func (x *Exec) evalModifies(ce *cenv, ms []*CExpr) []modEntry {
 		if m.Kind == "call" && m.Name == "mapof" {
 			v := ce.eval(m.Args[0])
 			mt := types.Unalias(v.t).Underlying().(*types.Map)
-			dn, ds, vn, vs := te.mapHeaps(mt)
-			for _, p := range [][2]any{{dn, ds}, {vn, vs}, {"ML:" + te.typeStr(mt), arraySort(sortInt, sortInt)}} {
+			reg := ce.region(v, m.Args[0])
+			dn, ds, vn, vs := te.mapHeaps(mt, reg)
+			ln, ls := te.mapLenHeap(mt, reg)
+			for _, p := range [][2]any{{dn, ds}, {vn, vs}, {ln, ls}} {
 				n := p[0].(string)
 				if _, ok := heapSorts[n]; !ok {
 					heapSorts[n] = p[1].(*Sort)
@@ -472,7 +484,7 @@ func (x *Exec) callDynamic(fr *Frame, st *State, cc *ssa.CallCommon, fv *Term, a
 				if n == "" {
 					n = fmt.Sprintf("arg%d", i)
 				}
-				vars[n] = cvar{args[i], sig.Params().At(i).Type()}
+				vars[n] = cvar{v: args[i], t: sig.Params().At(i).Type()}
 			}
 			if fa := x.callbackRecv(fr, cc.Value); fa != nil {
 				for n, v := range fa {
@@ -530,7 +542,7 @@ func (x *Exec) callbackRecv(fr *Frame, v ssa.Value) map[string]cvar {
 	if !ok {
 		return nil
 	}
-	return map[string]cvar{"self": {x.val(fr, fa.X), fa.X.Type()}}
+	return map[string]cvar{"self": {v: x.val(fr, fa.X), t: fa.X.Type()}}
 }
 
 // cbParam: is v a load of a function-typed parameter of the unit's top function?
@@ -636,16 +648,16 @@ func (x *Exec) execIterator(fr *Frame, st *State, con *FuncContract, fn *ssa.Fun
 	entry := st.clone()
 	// the jump cell (first binding named jump$k) must be 0 on entry
 	invEnv := func(s *State, i *Term) *cenv {
-		return x.clauseEnv(fr, s, map[string]cvar{"_i": {i, types.Typ[types.Int]}, "_n": {n, types.Typ[types.Int]}})
+		return x.clauseEnv(fr, s, map[string]cvar{"_i": {v: i, t: types.Typ[types.Int]}, "_n": {v: n, t: types.Typ[types.Int]}})
 	}
 	evalInv := func(s *State, i *Term, cl *Clause) *Term {
-		return x.evalClauseWith(fr, s, cl, map[string]cvar{"_i": {i, types.Typ[types.Int]}, "_n": {n, types.Typ[types.Int]}})
+		return x.evalClauseWith(fr, s, cl, map[string]cvar{"_i": {v: i, t: types.Typ[types.Int]}, "_n": {v: n, t: types.Typ[types.Int]}})
 	}
 	for _, cl := range invs {
 		x.assertClause(entry, "loop-entry", fmt.Sprintf("loop %d: ", ord), invEnv(entry, mkInt(0)), cl, pos)
 	}
 	elemPtr := func(s *State, i *Term) *PtrVal {
-		ce := &cenv{x: x, st: s, old: s, vars: map[string]cvar{"_i": {i, types.Typ[types.Int]}}}
+		ce := &cenv{x: x, st: s, old: s, vars: map[string]cvar{"_i": {v: i, t: types.Typ[types.Int]}}}
 		for k, v := range vars {
 			ce.vars[k] = v
 		}
@@ -875,13 +887,13 @@ func (x *Exec) execInvoke(fr *Frame, st *State, cc *ssa.CallCommon, in ssa.Instr
 	if con := x.env.con.Funcs[key]; con != nil {
 		con.used = true
 		sig := cc.Method.Type().(*types.Signature)
-		vars := map[string]cvar{"self": {recv, it}}
+		vars := map[string]cvar{"self": {v: recv, t: it}}
 		for i := 0; i < sig.Params().Len(); i++ {
 			n := sig.Params().At(i).Name()
 			if n == "" || n == "_" {
 				n = fmt.Sprintf("arg%d", i)
 			}
-			vars[n] = cvar{args[i+1], sig.Params().At(i).Type()}
+			vars[n] = cvar{v: args[i+1], t: sig.Params().At(i).Type()}
 		}
 		ce := &cenv{x: x, st: st, old: st, vars: vars}
 		for _, cl := range con.Requires {
@@ -898,11 +910,11 @@ func (x *Exec) execInvoke(fr *Frame, st *State, cc *ssa.CallCommon, in ssa.Instr
 		rv := x.freshResult(st, rt)
 		res := sig.Results()
 		if res.Len() == 1 {
-			vars["result"] = cvar{rv, res.At(0).Type()}
+			vars["result"] = cvar{v: rv, t: res.At(0).Type()}
 		} else if res.Len() > 1 {
 			if tv, ok := rv.(*TupleVal); ok {
 				for i := 0; i < res.Len(); i++ {
-					vars[fmt.Sprintf("result%d", i)] = cvar{tv.Elems[i], res.At(i).Type()}
+					vars[fmt.Sprintf("result%d", i)] = cvar{v: tv.Elems[i], t: res.At(i).Type()}
 				}
 			}
 		}
@@ -931,10 +943,10 @@ func (x *Exec) onChanSend(fr *Frame, st *State, ch *Term, v Val, et types.Type, 
 		return
 	}
 	con.used = true
-	vars := map[string]cvar{"msg": {v, et}}
+	vars := map[string]cvar{"msg": {v: v, t: et}}
 	if u, ok := chv.(*ssa.UnOp); ok {
 		if fa, ok := u.X.(*ssa.FieldAddr); ok {
-			vars["self"] = cvar{x.val(fr, fa.X), fa.X.Type()}
+			vars["self"] = cvar{v: x.val(fr, fa.X), t: fa.X.Type()}
 		}
 	}
 	ce := &cenv{x: x, st: st, old: fr.old, vars: vars}
